@@ -104,8 +104,9 @@ type thread struct {
 	pred    func() bool // non-nil while blocked
 	why     string
 	done    bool
-	quiesce bool // blocked in Quiesce()
-	daemon  bool // not reported in Result.Blocked
+	tag     string // harness label, inherited by the threads and timers this thread creates (see SetTag)
+	quiesce bool   // blocked in Quiesce()
+	daemon  bool   // not reported in Result.Blocked
 	exited  chan struct{}
 	// spin detection
 	spinSeen map[spinKey]int
@@ -127,6 +128,7 @@ type timer struct {
 	seq      int
 	fire     func() // runs on the scheduler's behalf (baton held); must not block
 	name     string
+	tag      string // tag of the thread (or timer) that armed it
 	dead     bool
 }
 
@@ -155,6 +157,7 @@ type exec struct {
 	accessPoints  bool
 	hbOverride    *vclock
 	hbOverrideTid int
+	tagOverride   *string // while a timer callback runs: the tag of the timer
 	finisher      *thread
 	finisherParks bool
 	willPark      bool
@@ -223,6 +226,7 @@ func Run(cfg Config, prefix []int, setup func(), body func()) *Result {
 
 func (e *exec) newThread(name string) *thread {
 	t := &thread{id: len(e.threads), name: name, wake: make(chan struct{}, 1), exited: make(chan struct{})}
+	t.tag = e.curTag()
 	e.threads = append(e.threads, t)
 	return t
 }
@@ -369,7 +373,9 @@ func (e *exec) fireTimer(tm *timer) {
 		tok := tm.token.clone()
 		e.hbOverride, e.hbOverrideTid = &tok, tm.tokenTid
 	}
+	e.tagOverride = &tm.tag
 	tm.fire()
+	e.tagOverride = nil
 	e.hbOverride = nil
 }
 
@@ -729,7 +735,7 @@ func AddTimer(d int64, name string, fire func()) (cancel func() bool) {
 		d = 0
 	}
 	e.tseq++
-	tm := &timer{when: e.now + d, seq: e.tseq, fire: fire, name: name}
+	tm := &timer{when: e.now + d, seq: e.tseq, fire: fire, name: name, tag: e.curTag()}
 	if e.hb != nil {
 		tm.tokenTid = e.cur.id
 		if e.hbOverride != nil {
@@ -778,6 +784,33 @@ func mix(a, b uint64) uint64 {
 	x *= 0x94D049BB133111EB
 	x ^= x >> 29
 	return x
+}
+
+func (e *exec) curTag() string {
+	if e.tagOverride != nil {
+		return *e.tagOverride
+	}
+	if e.cur != nil {
+		return e.cur.tag
+	}
+	return ""
+}
+
+// SetTag labels the running thread. Threads it starts and timers it arms inherit the label (transitively: a timer
+// callback runs under the label of whoever armed it), so a harness that sets a tag before starting a component can
+// later ask which component the running code belongs to.
+func SetTag(tag string) {
+	if ex != nil && ex.cur != nil {
+		ex.cur.tag = tag
+	}
+}
+
+// Tag returns the label of the running thread (inside a timer callback: of the timer).
+func Tag() string {
+	if ex == nil {
+		return ""
+	}
+	return ex.curTag()
 }
 
 // CurrentThread returns the id and name of the running thread.
